@@ -222,15 +222,43 @@ BRIDGE_TB["EdsProofs.BridgeStatus"] = (
     "BoolToCondition are TRANSLATED (Generated/DecStatus.lean, calling the translated functions of DecConds / DecCanary) and proved equal to the model "
     "(EdsProofs/BridgeStatus.lean, src_*): src_manageCanaryPodFailures = the model's manageCanaryPodFailures on the canonical form of the pods "
     "(PodsRel), panics included, under Go.lastStateWF for the container statuses, result.FailedReason = \"\" and result.NewStatus a non-nil object "
-    "distinct from params.NewStatus (what manageCanaryStatus passes: a fresh Result with a deep copy). Not translated: utils.RemoveString (it appends "
-    "into the backing array of the slice it ranges over) and manageCanaryStatus itself (iteration over Go maps keyed by pointers) -- these stay tied "
-    "by the correspondence streams")
+    "distinct from params.NewStatus (what manageCanaryStatus passes: a fresh Result with a deep copy; manageCanaryStatus itself is translated in "
+    "Generated/DecCanaryStatus.lean, see BridgeCanaryStatus). Not translated: utils.RemoveString (it appends into the backing array of the slice it "
+    "ranges over) -- it stays tied by the correspondence streams")
+BRIDGE_TB["EdsProofs.BridgePodCompare"] = (
+    "compareCurrentPodWithNewPod and compareNodeResourcesOverwriteMD5Hash (strategy/utils.go) are TRANSLATED (Generated/DecPodCompare.lean, calling "
+    "the translated compareSpecTemplateMD5Hash of DecStatus) and proved equal to the model's comparePod / compareNodeHash on the canonical form of "
+    "the pod (EdsProofs/BridgePodCompare.lean, src_*), nil dereferences included. Tied by correspondence only inside them: the two library pieces "
+    "-- compareWithExtendedDaemonsetSettingOverwrite(pod, withoutContainersOverwrittenByNode(...)) (DeepCopy / json.Unmarshal / "
+    "apiequality.Semantic.DeepEqual; Go.compareWithSettingOverwrite = the model's compareSettingOverwrite) and "
+    "comparison.GenerateHashFromEDSResourceNodeAnnotation (= the model's Node.resHash, computed by the harness with the real function)")
+BRIDGE_TB["EdsProofs.BridgeCanaryStatus"] = (
+    "manageCanaryStatus (strategy/canary.go: the scan of params.CanaryNodes through the two Go MAPS NodeByName / PodByNodeName, the call of "
+    "manageCanaryPodFailures, the counters, the create / delete lists and the requeue request), requeueIn and requeuePromptly are TRANSLATED "
+    "(Generated/DecCanaryStatus.lean, calling the translated functions of DecPodCompare / DecStatus / DecConds / DecCanary) and proved equal to the "
+    "model (EdsProofs/BridgeCanaryStatus.lean): src_manageCanaryStatus = the model's manageCanaryStatus, panics included, for EVERY content and "
+    "order of the two maps taken as association lists under MapsRel (every NodeByName entry is filed under the name of its node and every key of "
+    "PodByNodeName is the NodeByName entry of its name -- what FilterAndMapPodsByNode constructs; under it the explicit key identity "
+    "Go.nodeItemKey = node name coincides with equality of the keys, nodeItemKey_faithful; maps_filed_needed shows the hypothesis is needed), "
+    "non-nil Strategy / NewStatus / Replicaset, and Go.lastStateWF for the container statuses of the mapped pods (MapPodsWF). Code-level "
+    "corollaries EdsProps/CanaryStatusSrc.lean (C06_src_status_*, C08_src_status_*, C04_src_status_*, C14_src_status_*)")
+BRIDGE_TB["EdsProofs.BridgeRolling"] = (
+    "the classification loop of ManageDeployment (strategy/rollingupdate.go: `for node, pod := range params.PodByNodeName`, iteration over a Go "
+    "MAP) is cut out of the function by the translator (a statement fragment: a function of the locals the statement reads, returning the locals "
+    "it assigns; the rest of ManageDeployment talks to the API server and is not translated) and TRANSLATED on every run "
+    "(Generated/DecRolling.lean); src_manageDeploymentClassify proves it equal to the model's countAll (every counter, the creation list) and to "
+    "the deletion candidates in iteration order, for EVERY association list, i.e. every iteration order; src_delOrder_partition: the stable "
+    "partition of that list by availability (what sort.SliceStable computes next -- library code, not translated) is the model's "
+    "toDeleteUnavail ++ toDeleteAvail. Hypothesis: the wall clock (two reads per iteration in HasPodSchedulerIssue, translated as functions of the "
+    "iteration index) does not advance during the loop -- the model evaluates the loop at one instant")
 BRIDGES = {
     "C05": ["EdsProofs.BridgeCanary"],
-    "C08": ["EdsProofs.BridgeCanary"],
-    "C14": ["EdsProofs.BridgeCanary", "EdsProofs.BridgeConds", "EdsProofs.BridgeStatus"],
-    "C04": ["EdsProofs.BridgeConds"],
-    "C06": ["EdsProofs.BridgeConds", "EdsProofs.BridgeStatus"],
+    "C08": ["EdsProofs.BridgeCanary", "EdsProofs.BridgePodCompare", "EdsProofs.BridgeCanaryStatus"],
+    "C03": ["EdsProofs.BridgePodCompare", "EdsProofs.BridgeRolling"],
+    "C10": ["EdsProofs.BridgePodCompare"],
+    "C14": ["EdsProofs.BridgeCanary", "EdsProofs.BridgeConds", "EdsProofs.BridgeStatus", "EdsProofs.BridgePodCompare", "EdsProofs.BridgeRolling"],
+    "C04": ["EdsProofs.BridgeConds", "EdsProofs.BridgePodCompare", "EdsProofs.BridgeCanaryStatus"],
+    "C06": ["EdsProofs.BridgeConds", "EdsProofs.BridgeStatus", "EdsProofs.BridgePodCompare", "EdsProofs.BridgeCanaryStatus"],
     "C19": ["EdsProofs.BridgeCanary"],
     "C01": ["EdsProofs.BridgeStatus"],
     "C18": ["EdsProofs.BridgeStatus"],
@@ -240,10 +268,11 @@ BRIDGES = {
     "C09": ["EdsProofs.BridgeSlowStart"],
 }
 SRC_THEOREMS = {
-    "C06": [("EdsProps.C06s", "C06_src_")],
-    "C14": [("EdsProps.C14s", "C14_src_")],
+    "C06": [("EdsProps.C06s", "C06_src_"), ("EdsProps.CanaryStatusSrc", "C06_src_")],
+    "C14": [("EdsProps.C14s", "C14_src_"), ("EdsProps.CanaryStatusSrc", "C14_src_")],
+    "C04": [("EdsProps.CanaryStatusSrc", "C04_src_")],
     "C05": [("EdsProps.C05s", "C05_src_")],
-    "C08": [("EdsProps.C08s", "C08_src_")],
+    "C08": [("EdsProps.C08s", "C08_src_"), ("EdsProps.CanaryStatusSrc", "C08_src_")],
     "C07": [("EdsProps.C07s", "C07_src_"), ("EdsProps.C14s", "re:^(C07_src_|C14_src_failed)")],
     "C13": [("EdsProps.C07s", "C07_src_")],
     "C16": [("EdsProps.C16s", "C16_src_")],
@@ -301,7 +330,11 @@ PROPS["C09"]["level_text"] += " C09_spacing_history (EdsProps/C09c): over any ru
 PROPS["C13"]["level_text"] += " L3 history (EdsProps/L3): L3_one_per_template, L3_names_nodup, L3_never_deletes_in_use by induction over arbitrary operation sequences of the cluster machine."
 PROPS["C05"]["level_text"] += " L3_promotion_history: in any run of the cluster machine, whenever a reconcile switches status.activeReplicaSet from an existing own replica set to another, the promotion rule held in the pre-state. Code level (EdsProps/C05s): C05_src_only_if etc. about the TRANSLATED selectCurrentReplicaSet."
 PROPS["C06"]["level_text"] += " Code level (EdsProps/C06s, about the TRANSLATED manageCanaryPodFailures of Generated/DecStatus.lean via Bridge.src_manageCanaryPodFailures): C06_src_model / C06_src_panics_iff (the translated function returns exactly when the model does, with the model's flags, reasons and status), C06_src_failed_iff, C06_src_failed_sticky, C06_src_paused_iff, C06_src_conditions_written."
-PROPS["C14"]["level_text"] += " Code level (EdsProps/C14s, about the TRANSLATED manageStatus / manageCanaryStatusConditions): C14_src_state_total (no panic on non-nil arguments, one of the six documented states), C14_src_failed_clears_canary, C14_src_canary_block, C14_src_canary_conditions (Canary-Failed is true iff failed, Canary-Paused iff paused and not failed)."
+PROPS["C06"]["level_text"] += " Code level, the caller (EdsProps/CanaryStatusSrc, about the TRANSLATED manageCanaryStatus of Generated/DecCanaryStatus.lean -- Go maps as association lists in any order -- via Bridge.src_manageCanaryStatus): C06_src_status_model (the translated function returns exactly the model's result), C06_src_status_blocks_creation (paused or failed: PodsToCreate is empty)."
+PROPS["C08"]["level_text"] += " Code level (EdsProps/CanaryStatusSrc, about the TRANSLATED manageCanaryStatus): C08_src_status_paused_no_create, C08_src_status_resumes_on_unpause."
+PROPS["C04"]["level_text"] += " Code level (EdsProps/CanaryStatusSrc, about the TRANSLATED manageCanaryStatus): C04_src_status_create_only_canary_nodes (every pointer of PodsToCreate is a non-nil key of PodByNodeName with a nil pod whose node is named in CanaryNodes)."
+PROPS["C03"]["level_text"] += " Code level: the classification loop of ManageDeployment that produces the counters calcLimits is applied to is TRANSLATED (statement fragment, Generated/DecRolling.lean) and equal to the model's countAll for every iteration order of the Go map (Bridge.src_manageDeploymentClassify, src_delOrder_partition)."
+PROPS["C14"]["level_text"] += " Code level (EdsProps/C14s, about the TRANSLATED manageStatus / manageCanaryStatusConditions): C14_src_state_total (no panic on non-nil arguments, one of the six documented states), C14_src_failed_clears_canary, C14_src_canary_block, C14_src_canary_conditions (Canary-Failed is true iff failed, Canary-Paused iff paused and not failed). EdsProps/CanaryStatusSrc: C14_src_status_counters (the status the TRANSLATED manageCanaryStatus returns satisfies 0 <= available <= ready <= current <= desired = len(CanaryNodes))."
 PROPS["C07"]["level_text"] += " Code level (EdsProps/C14s): C14_src_failed_clears_canary (the TRANSLATED manageStatus clears status.canary and reports Canary Failed for a failed canary, also with nil replica set / daemonset pointers), C07_src_annotations_cleared (the TRANSLATED clearCanaryAnnotations removes exactly the three canary annotations and reports whether one was there)."
 PROPS["C01"]["level_text"] += " L3_one_per_node: at most one live daemon pod per node along runs of BOTH controllers with the ExtendedDaemonSet object evolving."
 PROPS["C12"]["level_text"] += " L3_foreign_pods_untouched: along any run (with or without dropped writes) no op but the kubelet changes a pod the ExtendedDaemonSet does not own."
